@@ -80,6 +80,11 @@ NOTES = {  # seed -> (after, what was strengthened)
  "C09f_m1": ("caught (C09 correspondence + oracle)", "Scopes.model_params2: the two add_parameters calls of one operation (model_params2_distinct_quiet, model_params2_keys); ~700 splits of parameters between the path-item and the operation list"),
  "C19f_m1": ("caught (C19 oracle)", "user files named like the files OTHER metadata flavours generate (setup.py in a poetry project ...), hidden files; a fixed history with a user file at every listed path"),
  "C19f_m2": ("caught (C19 oracle)", "--output-path in every spelling the OS accepts (./, trailing slash, a/../b, through a symlinked directory, symlink + ..): everything lands where the OS resolves the path"),
+ "C15f_m2": ("caught (C15 correspondence + oracle)", "collect correspondence also compares PYTHON names (ProcProps.process); parents holding de-conflicted twins with a later member redeclaring one of them (also exposed finding allof_parent_attr_renamed)"),
+ "C16f_m2": ("caught (C16 stage A metadata_reads_documented + stage C)", "regenerated table of every variable the metadata templates read (no read of openapi.version); every override in every flavour with a metadata file against the documented expectation"),
+ "C17f_m2": ("caught (C17 correspondence + oracle)", "Norm.v extended with prefixItems (items_congruence, union_members_congruence); rewrites inside tuple arrays, duplicated members in equivalent spellings (also exposed finding prefix_items_grow_on_rebuild)"),
+ "C18f_m1": ("caught (C18 oracle)", "twin names (same python name before de-confliction) as siblings of a model refined through allOf, 32 combinations, neutral twin control"),
+ "C20f_m2": ("caught (C20 oracle; C03 caught it at once)", "body position with all four media-type kinds, one component shared by multipart / json / form bodies and responses, captured requests compared modulo the multipart boundary"),
  "C19c_m1": ("caught (C19 oracle + hook_cwd correspondence)", "post hooks: a marker hook that rewrites *.py below its working directory, all four flavours, with sentinel files around the output directory; Fs.hook_cwd"),
  "C10_m1": ("caught (C10 oracle, C02 correspondence)", "falsy-but-present values (0, \"\", false, {}, []) in the C02 atlas and the C10 grid"),
  "C10_m2": ("caught (C10 oracle; C15 caught it at once)", "allOf-refined required properties in the C10 grid"),
